@@ -1,186 +1,56 @@
-import OnetVerif.Model.Util
-/-! Model for property C16 — service storage (`context.go:26-51, 166-309`, `service.go:367-425`,
-`server.go:48-82`): one bbolt database per server, buckets named after the service.
-
-The database is `bucket name → key → value` on byte strings.  A stored value is the
-`network.Marshal` encoding of what the service saved (16-byte type id ++ protobuf body); the codec
-itself is a parameter: `Load` succeeds iff the stored bytes start with a registered type id (the
-harness never stores a registered id followed by a malformed body).  Core-only. -/
+import OnetVerif.Model.C16Core
+import OnetVerif.Model.C16Sha
+import OnetVerif.Model.C16Dir
+/-! Model for property C16 — service storage.  The model proper is in `Model/C16Core.lean` (one
+database: buckets, the storage calls of a `Context`, histories with restarts) and
+`Model/C16Dir.lean` (the data directory: database file names, take-over of a file with the legacy
+name, open / close / delete-on-close); `Model/C16Sha.lean` is the hash the file name is made with.
+This file is the line-protocol front end. -/
 namespace C16
-
-abbrev Bytes := List Nat
-
-/-- one bbolt bucket: key → value -/
-abbrev Bucket := Bytes → Option Bytes
-
-/-- the database file: bucket name → bucket (`none`: no such bucket) -/
-abbrev Db := Bytes → Option Bucket
-
-def Db.empty : Db := fun _ => none
-
-/-- `"version"` -/
-def sVersion : Bytes := [118, 101, 114, 115, 105, 111, 110]
-/-- `'_'` -/
-def cUnderscore : Nat := 95
-/-- `var dbVersion = []byte("dbVersion")` (context.go:238) -/
-def dbVersionKey : Bytes := [100, 98, 86, 101, 114, 115, 105, 111, 110]
-
-/-- `bucketName: []byte(ServiceFactory.Name(servID))` (context.go:33) -/
-def mainName (svc : Bytes) : Bytes := svc
-/-- `bucketVersionName: []byte(ServiceFactory.Name(servID) + "version")` (context.go:34) -/
-def versionName (svc : Bytes) : Bytes := svc ++ sVersion
-/-- `fullName := append(append(bucketName, byte('_')), name...)` (context.go:295) -/
-def extraName (svc x : Bytes) : Bytes := svc ++ [cUnderscore] ++ x
-
-/-- `tx.CreateBucketIfNotExists(name)` -/
-def createBucket (db : Db) (n : Bytes) : Db :=
-  fun m => if m = n then some ((db n).getD fun _ => none) else db m
-
-/-- `newContext` (context.go:26-51): both buckets of the service exist afterwards -/
-def newContext (db : Db) (svc : Bytes) : Db :=
-  createBucket (createBucket db (mainName svc)) (versionName svc)
-
-/-- server start on a data directory (`newServiceManager`, service.go:322-365): the file is
-opened with whatever it holds and every registered service gets its context -/
-def startServer (db : Db) (services : List Bytes) : Db := services.foldl newContext db
-
-/-- what a storage call returns -/
-inductive Res where
-  | ok
-  | nothing                -- `(nil, nil)`: no such key
-  | val (b : Bytes)        -- the stored bytes (for `Load`: the encoding of the value returned)
-  | ver (i : Int)
-  | name (b : Bytes)       -- bucket name returned by `GetAdditionalBucket`
-  | errTx                  -- the bbolt transaction failed (key empty or too large)
-  | errMarshal
-  | errUnmarshal
-  | errVersion             -- `bytes to int`
-  | noBucket               -- direct access to an additional bucket that was never created
-  | panic                  -- nil bucket dereferenced inside onet
-  deriving DecidableEq, Repr
-
-/-- bbolt `MaxKeySize` -/
-def maxKeySize : Nat := 32768
-
-/-- `b.Put(key, v)` in bucket `n` inside `db.Update`; `none`: no such bucket -/
-def putIn (db : Db) (n k v : Bytes) : Option (Db × Res) :=
-  match db n with
-  | none => none
-  | some b =>
-    if k = [] ∨ k.length > maxKeySize then some (db, .errTx)
-    else some (fun m => if m = n then some (fun k' => if k' = k then some v else b k') else db m, .ok)
-
-/-- `b.Delete(key)` in bucket `n` -/
-def delIn (db : Db) (n k : Bytes) : Option (Db × Res) :=
-  match db n with
-  | none => none
-  | some b => some (fun m => if m = n then some (fun k' => if k' = k then none else b k') else db m, .ok)
-
-/-- `tx.Bucket(n).Get(key)`; outer `none`: no such bucket -/
-def getFrom (db : Db) (n k : Bytes) : Option (Option Bytes) := (db n).map (· k)
-
-/-- `network.Unmarshal` succeeds: the bytes start with a registered type id -/
-def decodable (known : List Bytes) (raw : Bytes) : Bool :=
-  decide (16 ≤ raw.length) && known.contains (raw.take 16)
-
-/-- `int32(version)` written little-endian (context.go:268-271) -/
-def wrap32 (v : Int) : Nat := (v % 4294967296).toNat
-def encodeVersion (v : Int) : Bytes :=
-  let u := wrap32 v
-  [u % 256, u / 256 % 256, u / 65536 % 256, u / 16777216 % 256]
-
-/-- `binary.Read(…, LittleEndian, &int32)` on the first four bytes -/
-def decodeVersion (b : Bytes) : Option Int :=
-  match b with
-  | b0 :: b1 :: b2 :: b3 :: _ =>
-    let u := b0 % 256 + 256 * (b1 % 256) + 65536 * (b2 % 256) + 16777216 * (b3 % 256)
-    some (if u < 2147483648 then (u : Int) else (u : Int) - 4294967296)
-  | _ => none
-
-/-- the storage calls of a `Context` (and direct use of an additional bucket through the
-returned database handle and bucket name) -/
-inductive Op where
-  | save (k raw : Bytes)        -- `Save(key, value)` with `network.Marshal(value) = raw`
-  | saveBad (k : Bytes)         -- `Save` of a value of an unregistered type
-  | load (k : Bytes)
-  | loadRaw (k : Bytes)
-  | saveVersion (v : Int)
-  | loadVersion
-  | addBucket (x : Bytes)       -- `GetAdditionalBucket(x)`
-  | bput (x k v : Bytes)        -- `db.Update(tx.Bucket(svc_x).Put(k, v))`
-  | bget (x k : Bytes)
-  | bdel (x k : Bytes)
-  deriving DecidableEq, Repr
-
-/-- one call by service `svc` -/
-def step (known : List Bytes) (db : Db) (svc : Bytes) : Op → Db × Res
-  | .save k raw =>
-    match putIn db (mainName svc) k raw with
-    | none => (db, .panic)
-    | some r => r
-  | .saveBad _ => (db, .errMarshal)
-  | .load k =>
-    match getFrom db (mainName svc) k with
-    | none => (db, .panic)
-    | some none => (db, .nothing)
-    | some (some raw) => (db, if decodable known raw then .val raw else .errUnmarshal)
-  | .loadRaw k =>
-    match getFrom db (mainName svc) k with
-    | none => (db, .panic)
-    | some none => (db, .nothing)
-    | some (some raw) => (db, .val raw)
-  | .saveVersion v =>
-    match putIn db (versionName svc) dbVersionKey (encodeVersion v) with
-    | none => (db, .panic)
-    | some r => r
-  | .loadVersion =>
-    match getFrom db (versionName svc) dbVersionKey with
-    | none => (db, .panic)
-    | some none => (db, .ver 0)
-    | some (some []) => (db, .ver 0)
-    | some (some b) =>
-      match decodeVersion b with
-      | some v => (db, .ver v)
-      | none => (db, .errVersion)
-  | .addBucket x => (createBucket db (extraName svc x), .name (extraName svc x))
-  | .bput x k v =>
-    match putIn db (extraName svc x) k v with
-    | none => (db, .noBucket)
-    | some r => r
-  | .bget x k =>
-    match getFrom db (extraName svc x) k with
-    | none => (db, .noBucket)
-    | some none => (db, .nothing)
-    | some (some v) => (db, .val v)
-  | .bdel x k =>
-    match delIn db (extraName svc x) k with
-    | none => (db, .noBucket)
-    | some r => r
-
-/-- an event of a server's life on one data directory -/
-inductive Ev where
-  | call (svc : Bytes) (op : Op)
-  | restart (services : List Bytes)     -- close, then start again with these services registered
-
-/-- a history: database after it and the results of the calls, in order -/
-def run (known : List Bytes) (db : Db) : List Ev → Db × List Res
-  | [] => (db, [])
-  | .call svc op :: rest =>
-    let r := step known db svc op
-    let r' := run known r.1 rest
-    (r'.1, r.2 :: r'.2)
-  | .restart services :: rest => run known (startServer db services) rest
 
 /-! ### Line-protocol driver -/
 namespace Drv
 
 structure State where
-  db : Db := Db.empty
+  files : List (Bytes × Db) := []  -- the directory as a list: file name, contents
+  hashes : List (Bytes × Bytes) := []  -- SHA-256 of the keys of the case, computed once
   known : List Bytes := []
+  pubs : List Bytes := []         -- the public keys of the case (`keys`); none given: one server with the empty key
+  cur : Option Server := none     -- the running server
   services : List Bytes := []
-  up : Bool := false
+  started : Bool := false         -- some server was started already
 
 def init : State := {}
+
+def State.up (s : State) : Bool := s.cur.isSome
+
+/-- the directory the model functions work on -/
+def State.dir (s : State) : Dir := fun n => (s.files.find? (·.1 = n)).map (·.2)
+
+/-- the hash of `dbFileName`: SHA-256 (looked up for the keys of the case) -/
+def State.sha (s : State) : Bytes → Bytes := fun b =>
+  match s.hashes.find? (·.1 = b) with
+  | some p => p.2
+  | none => Sha.sha256 b
+
+/-- takes over the directory `d` an operation produced: the files it may have touched are `cands`
+and the ones that existed before -/
+def State.commit (s : State) (d : Dir) (cands : List Bytes) : State :=
+  { s with files := (cands ++ s.files.map (·.1)).eraseDups.filterMap fun n => (d n).map fun c => (n, c) }
+
+/-- the database of the running server -/
+def State.db (s : State) : Db :=
+  match s.cur with
+  | some srv => (s.dir (newName s.sha srv.pub)).getD Db.empty
+  | none => Db.empty
+
+def State.setDb (s : State) (db : Db) : State :=
+  match s.cur with
+  | some srv => s.commit (setFile s.dir (newName s.sha srv.pub) (some db)) [newName s.sha srv.pub]
+  | none => s
+
+def State.pub (s : State) (i : Nat) : Option Bytes :=
+  if s.pubs.isEmpty then (if i = 0 then some [] else none) else s.pubs[i]?
 
 /-- length of the trailing run of bytes equal to the last one -/
 def trailingRun : List Nat → Nat
@@ -257,10 +127,38 @@ def replay (known : List Bytes) (services : List Bytes) :
     | _ => none
 
 def call (s : State) (svc : String) (op : Op) : State × String :=
-  if s.up && s.services.contains (ascii svc) then
-    let r := C16.step s.known s.db (ascii svc) op
-    ({ s with db := r.1 }, showRes r.2)
-  else (s, "bad-op")
+  match s.cur with
+  | some srv =>
+    if s.services.contains (ascii svc) then
+      let r := callOn s.sha s.known s.dir srv.pub (ascii svc) op
+      (s.commit r.1 [], showRes r.2)
+    else (s, "bad-op")
+  | none => (s, "bad-op")
+
+def insertStr (a : String) : List String → List String
+  | [] => [a]
+  | b :: r => if a < b then a :: b :: r else b :: insertStr a r
+
+/-- the `.db` files of the directory, sorted by name -/
+def listing (s : State) : String :=
+  let l := (s.files.map fun f => String.ofList (f.1.map Char.ofNat)).foldr insertStr []
+  if l.isEmpty then "-" else ",".intercalate l
+
+/-- `keys`: comma separated `<seed>:<public key>`, hex (the seed is for the harness, which derives the
+key pair from it and checks the public key) -/
+def parseKeys (l : String) : Option (List Bytes) :=
+  (l.splitOn ",").mapM fun t =>
+    match t.splitOn ":" with
+    | [seed, p] => (Util.unhex seed).bind fun _ => Util.unhex p
+    | _ => none
+
+def startSrv (s : State) (i : Nat) (l : String) (del : Bool) : State × String :=
+  match s.cur, s.pub i with
+  | none, some pub =>
+    let s := if s.hashes.any (·.1 = pub) then s else { s with hashes := (pub, Sha.sha256 pub) :: s.hashes }
+    ({ s.commit (startOn s.sha s.dir pub (names l)) [newName s.sha pub] with
+       services := names l, cur := some { pub := pub, delDb := del }, started := true }, "ok")
+  | _, _ => (s, "bad-op")
 
 def step (s : State) (toks : List String) : State × String :=
   match toks with
@@ -268,10 +166,41 @@ def step (s : State) (toks : List String) : State × String :=
     match (if l = "-" then some [] else (l.splitOn ",").mapM unhexc) with
     | some ts => ({ s with known := ts }, "ok")
     | none => (s, "bad-op")
-  | ["start", l] =>
-    if s.up then (s, "bad-op")
-    else ({ s with db := startServer s.db (names l), services := names l, up := true }, "ok")
-  | ["stop"] => if s.up then ({ s with up := false }, "ok") else (s, "bad-op")
+  | ["keys", l] =>
+    match s.cur, parseKeys l with
+    | none, some ps =>
+      if s.pubs.isEmpty && !s.started && ps.length ≤ 4 then ({ s with pubs := ps }, "ok") else (s, "bad-op")
+    | _, _ => (s, "bad-op")
+  | ["datadir", m] =>
+    -- how the server is told its directory (environment variable or default location): the same
+    -- directory model either way
+    if (m = "env" || m = "default") && s.cur.isNone && !s.started then (s, "ok") else (s, "bad-op")
+  | ["start", l] => startSrv s 0 l false
+  | ["startk", i, l, mode] =>
+    match i.toNat?, (if mode = "keep" then some false else if mode = "tmp" then some true else none) with
+    | some i, some del => startSrv s i l del
+    | _, _ => (s, "bad-op")
+  | ["stop"] =>
+    match s.cur with
+    | some srv => ({ s.commit (closeOn s.sha s.dir srv) [] with cur := none }, "ok")
+    | none => (s, "bad-op")
+  | ["mvold", i] =>
+    -- what an older version of onet would have left: the server's file under the legacy name
+    match s.cur, i.toNat?.bind s.pub with
+    | none, some pub =>
+      match s.dir (newName s.sha pub) with
+      | some c => (s.commit (setFile (setFile s.dir (newName s.sha pub) none) (oldName pub) (some c)) [oldName pub], "ok")
+      | none => (s, "nofile")
+    | _, _ => (s, "bad-op")
+  | ["cpold", i] =>
+    -- a copy of the server's file under the legacy name, the file itself stays
+    match s.cur, i.toNat?.bind s.pub with
+    | none, some pub =>
+      match s.dir (newName s.sha pub) with
+      | some c => (s.commit (setFile s.dir (oldName pub) (some c)) [oldName pub], "ok")
+      | none => (s, "nofile")
+    | _, _ => (s, "bad-op")
+  | ["ls"] => (s, listing s)
   | ["save", svc, k, raw, _goValue] =>     -- the fifth token describes the Go value (harness only)
     match unhexc k, unhexc raw with
     | some k, some raw => call s svc (.save k raw)
@@ -317,10 +246,11 @@ def step (s : State) (toks : List String) : State × String :=
       if !s.up then (s, "bad-op") else
       match replay s.known s.services order s.db ts (ts.map fun _ => []) with
       | some (db, outs) =>
+        let s := s.setDb db
         -- then the final contents of everything the segment touched, in order of first appearance
         let touched := (ts.flatten.map fun c => (c.1, opKey c.2)).eraseDups
         let fin := touched.map fun c => showRes (C16.step s.known db c.1 (.loadRaw c.2)).2
-        ({ s with db := db }, "|".intercalate (outs.map (",".intercalate ·)) ++ "#" ++ ",".intercalate fin)
+        (s, "|".intercalate (outs.map (",".intercalate ·)) ++ "#" ++ ",".intercalate fin)
       | none => (s, "bad-op")
     | _, _ => (s, "bad-op")
   | _ => (s, "bad-op")
